@@ -178,11 +178,15 @@ def _jsonable(x: Any) -> Any:
 def finish(run: Run) -> int:
     known = {e["signature"]: e for e in load_known() if e.get("property") == run.prop and e.get("status") == "known"}
     new: List[str] = []
-    os.makedirs(os.path.join(VERIF, "replays"), exist_ok=True)
+    # mutant / seeded-change runs redirect their artefacts so /verif/replays and /verif/evidence keep
+    # describing the unchanged tree (tools/run_mutants.py sets these)
+    rep_dir = os.environ.get("VERIF_REPLAY_DIR") or os.path.join(VERIF, "replays")
+    ev_dir = os.environ.get("VERIF_EVIDENCE_DIR") or os.path.join(VERIF, "evidence")
+    os.makedirs(rep_dir, exist_ok=True)
     n_known = 0
     for sig in sorted(run.viol):
         what, case = run.viol[sig]
-        path = os.path.join(VERIF, "replays", "%s-%s.json" % (run.prop, _slug(sig)))
+        path = os.path.join(rep_dir, "%s-%s.json" % (run.prop, _slug(sig)))
         with open(path, "w", encoding="utf-8") as f:
             json.dump({"property": run.prop, "signature": sig, "what": what, "case": _jsonable(case)}, f,
                       indent=1, sort_keys=True, ensure_ascii=False)
@@ -232,12 +236,12 @@ def finish(run: Run) -> int:
         "wall_s": round(time.time() - run.t0, 3),
         "violations": len(new),
     }
-    os.makedirs(os.path.join(VERIF, "evidence"), exist_ok=True)
-    tmp = os.path.join(VERIF, "evidence", ".%s.json.tmp" % run.prop)
+    os.makedirs(ev_dir, exist_ok=True)
+    tmp = os.path.join(ev_dir, ".%s.json.tmp" % run.prop)
     with open(tmp, "w", encoding="utf-8") as f:
         json.dump(ev, f, indent=1, sort_keys=True, ensure_ascii=False)
         f.write("\n")
-    os.replace(tmp, os.path.join(VERIF, "evidence", "%s.json" % run.prop))
+    os.replace(tmp, os.path.join(ev_dir, "%s.json" % run.prop))
     print("%s %s: states=%d transitions=%d validated=%d outcomes=%d known=%d new=%d exhaustive=%s wall=%.1fs" % (
         run.prop, run.tier, cov["states"], cov["transitions"], cov["traces_validated_against_impl"],
         cov["distinct_outcomes"], n_known, len(new), cov["exhaustive"], ev["wall_s"]))
